@@ -52,6 +52,9 @@ def _run(tier, seed):
         chk.violation("crash", {"what": "the harness crashed", "stderr": se, "broken": ["harness exit %d" % rc]}, no_input=True)
         return chk.finish(proof)
     hook = "hook=true" in se
+    if not hook:
+        chk.violation("hook", {"what": "HnswIndex::verif_dump (cfg grafeo_verif hook, /repo 4a540e5) is gone: the graph cannot be compared with the model",
+                               "broken": ["correspondence C18: hook missing"]}, no_input=True)
     gv.standard_flow(chk, REQ_RUN, cases, proof, "C18")
     chk.coverage["hook_applied"] = hook
     chk.coverage["rule"] = (
